@@ -2,6 +2,7 @@ package kvql
 
 import (
 	"fmt"
+	"strconv"
 	"strings"
 )
 
@@ -552,7 +553,10 @@ func (a *AggregatePlan) convertToBytes(val any) ([]byte, error) {
 	case int, int8, int16, int32, int64, uint, uint8, uint16, uint32, uint64:
 		return []byte(fmt.Sprintf("%d", value)), nil
 	case float32, float64:
-		return []byte(fmt.Sprintf("%f", value)), nil
+		// Every digit that tells two values apart, %f would put values
+		// that differ after the sixth decimal into one group
+		fval, _ := convertToFloat(value)
+		return []byte(strconv.FormatFloat(fval, 'f', -1, 64)), nil
 	default:
 		if val == nil {
 			return nil, nil
